@@ -20,6 +20,7 @@ EXPLANATION = (
     "BasePage.page_dir, PageNode.url/path, PagetreePage.loc/outfile). R4: every page is converted with "
     "path= its own output directory. R5: every page (index or not) copies its copy_subdir directories "
     "and its files - no early return before the copy loops."
+    " R6: relative-link rewriting keeps #fragment and ?query, and an empty page is harmless. R2 uses the element-provenance analysis (page names come from the directory listing only; the merged list is user order + listing, de-duplicated), R3 compares the directory literals extracted from each site's path expression with each other."
 )
 ASSUMPTIONS = []
 
